@@ -37,8 +37,9 @@ ContractAccepts(xw, c, b) == b.n > xw[c].lbn[b.tok] /\ (c = "minter" \/ xw[c].h 
 XwApply(xw, a) ==
     CASE a.k = "ExtDeposit" -> [xw EXCEPT ![a.chain].log = Append(@, a.ev), ![a.chain].h = a.ev.eh,
                                           ![a.chain].cust[a.ev.tok] = @ + a.ev.amt]
+      \* (a.cold: the part of the payout that goes to the chain's cold storage address: it stays in the bridge's custody)
       [] a.k = "ExtExec"    -> [xw EXCEPT ![a.chain].log = Append(@, a.ev), ![a.chain].h = a.ev.eh,
-                                          ![a.chain].lbn[a.ev.tok] = a.ev.bn, ![a.chain].cust[a.ev.tok] = @ - a.paid,
+                                          ![a.chain].lbn[a.ev.tok] = a.ev.bn, ![a.chain].cust[a.ev.tok] = @ - a.paid + (IF "cold" \in DOMAIN a THEN a.cold ELSE 0),
                                           ![a.chain].done = @ \cup {<<a.ev.tok, a.ev.bn>>}]
       [] a.k = "ExtMine"    -> [xw EXCEPT ![a.chain].h = @ + a.n]
       [] OTHER -> xw
@@ -49,7 +50,8 @@ XwApply(xw, a) ==
 PaidOut(s, xw, c) == UNION {RangeOf(b.txs) : b \in {b \in s.ch[c].bat : <<b.tok, b.n>> \in xw[c].done}}
 Owed(s, xw, c, tr) ==
     LET tok == TokByExt(Cfg(s), c, tr.tok)
-    IN IF tr \in PaidOut(s, xw, c) THEN ConvDec(tok.dec, 18, tr.f + tr.c) ELSE ConvDec(tok.dec, 18, tr.a + tr.f + tr.c)
+    IN IF IsColdTransfer(c, tr) THEN 0       \* a governance transfer to cold storage moves collateral inside the custody: nobody is owed
+       ELSE IF tr \in PaidOut(s, xw, c) THEN ConvDec(tok.dec, 18, tr.f + tr.c) ELSE ConvDec(tok.dec, 18, tr.a + tr.f + tr.c)
 InFlight(s, xw, c, d) ==
     FoldSet(LAMBDA tr, acc : acc + Owed(s, xw, c, tr), 0, {tr \in LiveTrs(s, c) : DenomOfTr(s, c, tr) = d})
 Custody(s, xw, c, d) ==
@@ -58,6 +60,10 @@ Custody(s, xw, c, d) ==
 Liabilities(s, xw, d) == s.sup[d] + FoldSet(LAMBDA c, acc : acc + InFlight(s, xw, c, d), 0, ExtChainsOf(Cfg(s)))
 Collateral(s, xw, d)  == FoldSet(LAMBDA c, acc : acc + Custody(s, xw, c, d), 0, ExtChainsOf(Cfg(s)))
 Solvent(s, xw) == \A d \in DOMAIN s.sup : Liabilities(s, xw, d) <= Collateral(s, xw, d)
+\* with the history variable: vouchers that the refund of an expired cold-storage transfer left on the transit account are
+\* the recorded finding C01-cold-storage-refund (reported where it happens, C01:ColdStorageRefundMinted), not a new insolvency
+SolventG(s, xw, g) ==
+    \A d \in DOMAIN s.sup : Liabilities(s, xw, d) - (IF "ColdRefundToTransit" \in Dev THEN g.cold[d] ELSE 0) <= Collateral(s, xw, d)
 
 \* the hub-side liability (supply + everything still owed to external recipients) of a denom
 HubLiab(s, d) == s.sup[d] + FoldSet(LAMBDA c, acc : acc + FoldSet(LAMBDA tr, a2 : a2 + HubValue(s, c, tr), 0,
@@ -69,8 +75,16 @@ DepositedNow(pre, post, d) ==
                                       IN IF Found(tok) /\ tok.denom = d THEN ConvDec(tok.dec, 18, ev.amt) ELSE 0), 0,
                 {ev \in AppliedEvents(pre, post, c) : ev.t \in {"Deposit", "ToHub"}}), 0, Chains(pre) \ {"hub"})
 \* C01: the liability grows only in an End step and by at most what the applied deposits locked
+\* (a passed cold-storage proposal creates a transfer of its amount without taking it from anybody)
 C01Step(pre, a, post) ==
-    UNION {Fail(HubLiab(post, d) - HubLiab(pre, d) > (IF a.k = "End" THEN DepositedNow(pre, post, d) ELSE 0), "C01:MintOnlyByDeposit", d)
+    UNION {Fail(HubLiab(post, d) - HubLiab(pre, d) > (IF a.k = "End" THEN DepositedNow(pre, post, d)
+                                                        ELSE IF a.k = "Gov" /\ a.p = "ColdStorage" /\ a.denom = d THEN a.amt ELSE 0), "C01:MintOnlyByDeposit", d)
            : d \in DOMAIN pre.sup}
+    \* a cold-storage transfer that expires is "refunded" to the transit account: vouchers nobody locked anything for
+    \* (the transit account's balance grows by what the refund minted; every other flow through it nets to zero within a step)
+    \cup UNION {Fail(a.k = "End" /\ \E d \in DOMAIN pre.sup :
+                          LET lost == ColdRefundedNow(pre, post, c, d) IN
+                          lost # {} /\ post.bal["tmp"][d] - pre.bal["tmp"][d] >= FoldSet(LAMBDA tr, acc : acc + HubValue(pre, c, tr), 0, lost),
+                     "C01:ColdStorageRefundMinted", c) : c \in Chains(pre) \ {"hub"}}
 
 =============================================================================
